@@ -84,6 +84,8 @@ Definition set_c (s : sigst) (c : cpc) : sigst :=
   mkS (s_fl s) (s_timed s) (s_st s) (s_phase s) (s_slot s) (s_waker s) (s_life s) (s_o s) c (s_ck s) (s_ptoken s) (s_viol s).
 Definition set_viol (s : sigst) : sigst :=
   mkS (s_fl s) (s_timed s) (s_st s) (s_phase s) (s_slot s) (s_waker s) (s_life s) (s_o s) (s_c s) (s_ck s) (s_ptoken s) true.
+Definition set_timed (s : sigst) (b : bool) : sigst :=
+  mkS (s_fl s) b (s_st s) (s_phase s) (s_slot s) (s_waker s) (s_life s) (s_o s) (s_c s) (s_ck s) (s_ptoken s) (s_viol s).
 Definition set_ptoken (s : sigst) (b : bool) : sigst :=
   mkS (s_fl s) (s_timed s) (s_st s) (s_phase s) (s_slot s) (s_waker s) (s_life s) (s_o s) (s_c s) (s_ck s) b (s_viol s).
 
@@ -132,7 +134,10 @@ Definition sstep (s : sigst) (e : sev) : option sigst :=
       if stv_eqb v (s_st s) then
         if low v then Some (set_o (observe s (is_acq o) v) (OLow v)) else Some s
       else None
-  | EFence o, OLow v, _ => Some (set_o (observe s (is_acq o) v) (ORet (stv_eqb v V0)))
+  | EFence o, OLow v, _ =>
+      (* inside wait_timeout a terminated signal makes it return false: is_terminated is next *)
+      Some (set_o (observe s (is_acq o) v)
+                  (if s_timed s && stv_eqb v V1 then OTimedFalse else ORet (stv_eqb v V0)))
   | EPause, OWait, _ | EPause, OTimed, _ | EPause, ABlocking, _ => Some s
   | EWakerWrite, OWait, _ =>
       match s_fl s with FlSync => Some (set_o (need s (s_waker s) HOwner) OCasReady) | FlAsync => None end
@@ -169,7 +174,8 @@ Definition sstep (s : sigst) (e : sev) : option sigst :=
       match s_phase s, ok with
       | PListed, true => Some (set_o (set_phase (move_all s HPool HOwner) PCancelled) (ORet false))
       | PClaimed, false =>
-          Some (set_o s (match s_o s with APending => ABlocking | _ => OWait end))
+          (* the timed phase is over: the owner now waits without a deadline (Signal::wait) *)
+          Some (set_o (set_timed s false) (match s_o s with APending => ABlocking | _ => OWait end))
       | _, _ => None
       end
   | EWakerReadOwner, APending, _ => Some s
